@@ -74,7 +74,11 @@ type c17Content struct {
 // c17Op is one step of a history.
 type c17Op struct {
 	// Kind: inplace | inplace-keep-mtime | rename-over | delete-recreate |
-	// k8s-swap | symlink-swap | sync | gate-arm | gate-wait | gate-release
+	// k8s-swap | symlink-swap | to-symlink | to-regular | sync | gate-arm |
+	// gate-wait | gate-release. to-symlink: a symlink to a new target file is
+	// renamed over the watched REGULAR file (the layout becomes symfile);
+	// to-regular: a regular file is renamed over the watched SYMLINK (the
+	// layout becomes plain).
 	Kind    string `json:"kind"`
 	Content int    `json:"content,omitempty"` // index into Contents (content ops)
 	// Identical: the op rewrites the bytes that are already there.
@@ -93,6 +97,9 @@ type c17Op struct {
 	FileFirst bool `json:"file_first,omitempty"`
 	// NewDir: symlink-swap puts the new target into a new directory.
 	NewDir bool `json:"new_dir,omitempty"`
+	// Sibling: symlink-swap/to-symlink puts the new target into the watched
+	// path's own directory (the link resolves to a sibling file).
+	Sibling bool `json:"sibling,omitempty"`
 	// AtomicCreate: delete-recreate recreates by renaming a finished file in.
 	AtomicCreate bool `json:"atomic_create,omitempty"`
 	// inplace-keep-mtime: an in-place rewrite with content of the SAME byte
@@ -108,7 +115,7 @@ type c17Op struct {
 
 func (o *c17Op) isContentOp() bool {
 	switch o.Kind {
-	case "inplace", "inplace-keep-mtime", "rename-over", "delete-recreate", "k8s-swap", "symlink-swap":
+	case "inplace", "inplace-keep-mtime", "rename-over", "delete-recreate", "k8s-swap", "symlink-swap", "to-symlink", "to-regular":
 		return true
 	}
 	return false
@@ -118,14 +125,14 @@ func (o *c17Op) isContentOp() bool {
 // the complete new bytes.
 func (o *c17Op) atomic() bool {
 	switch o.Kind {
-	case "rename-over", "k8s-swap", "symlink-swap":
+	case "rename-over", "k8s-swap", "symlink-swap", "to-symlink", "to-regular":
 		return true
 	}
 	return false
 }
 
 type c17Hist struct {
-	Layout  string `json:"layout"`  // plain | symfile | k8s
+	Layout  string `json:"layout"`  // plain | symfile | k8s (the INITIAL layout: to-symlink/to-regular steps move between plain and symfile)
 	Decoder string `json:"decoder"` // json | yaml
 	Flavor  string `json:"flavor"`
 	// ReadMode: "" = the stock decoder (io.ReadAll); otherwise a harness decoder
@@ -147,6 +154,11 @@ type c17Gen struct {
 	armed  bool
 	// lastValid: index of the most recent content generated as valid.
 	lastValid int
+	// mode: the layout at this point of the history (plain <-> symfile through
+	// to-symlink / to-regular steps); sibling: the link resolves into the
+	// watched path's own directory.
+	mode    string
+	sibling bool
 }
 
 func c17Short(b []byte) string {
@@ -391,11 +403,11 @@ func (g *c17Gen) pickKind(atomicOnly bool) string {
 		w int
 	}
 	var ks []wk
-	switch g.h.Layout {
+	switch g.mode {
 	case "plain":
-		ks = []wk{{"inplace", 40}, {"rename-over", 35}, {"delete-recreate", 25}}
+		ks = []wk{{"inplace", 40}, {"rename-over", 35}, {"delete-recreate", 25}, {"to-symlink", 9}}
 	case "symfile":
-		ks = []wk{{"inplace", 30}, {"rename-over", 20}, {"delete-recreate", 15}, {"symlink-swap", 35}}
+		ks = []wk{{"inplace", 30}, {"rename-over", 20}, {"delete-recreate", 15}, {"symlink-swap", 35}, {"to-regular", 8}}
 	default: // k8s
 		ks = []wk{{"k8s-swap", 55}, {"inplace", 25}, {"rename-over", 12}, {"delete-recreate", 8}}
 	}
@@ -458,6 +470,16 @@ func (g *c17Gen) contentOp(what string, atomicOnly bool) {
 	case "symlink-swap":
 		op.RemoveOld = r.Chance(50)
 		op.NewDir = r.Chance(60)
+		if r.Chance(12) {
+			op.Sibling, op.NewDir = true, false
+		}
+		g.sibling = op.Sibling
+	case "to-symlink":
+		op.Sibling = r.Chance(30)
+		g.mode, g.sibling = "symfile", op.Sibling
+	case "to-regular":
+		op.RemoveOld = r.Chance(50)
+		g.mode, g.sibling = "plain", false
 	}
 	g.h.Ops = append(g.h.Ops, op)
 	g.cur = op.Content
@@ -590,6 +612,7 @@ func c17Generate(r *fw.Rand) *c17Hist {
 	} else {
 		h.Decoder = "yaml"
 	}
+	g.mode = h.Layout
 	h.RelLink = r.Bool()
 	if r.Chance(30) {
 		h.ReadMode = fw.Pick(r, c17ReadModes)
@@ -703,6 +726,9 @@ func (h *c17Hist) signature() string {
 			}
 			if o.NewDir {
 				sb.WriteString("+")
+			}
+			if o.Sibling {
+				sb.WriteString("~")
 			}
 		}
 		sb.WriteString(";")
